@@ -176,6 +176,16 @@ def run(tier='quick'):
     _guard_shape(prog, eff, chk, A5)
     immediate_statements(prog, eff, chk, A6)
 
+    A7 = chk.rule('A7', 'creating a library is all-or-nothing: the call that runs the creator statements sits in a try block '
+                        'whose catch-all handler removes the files this call created and rethrows (the DDL runs statement '
+                        'by statement in autocommit; a failure part-way otherwise leaves files that load rejects and '
+                        'create refuses to overwrite)', floor=2)
+    creation_is_atomic(prog, cg, chk, A7)
+    A8 = chk.rule('A8', 'a connection on which transactions span several attached files has a file as its main database: '
+                        'SQLite makes a multi-file COMMIT atomic through a super-journal next to the main database file, '
+                        'and writes none when the main database is :memory:', floor=2)
+    multi_file_commit(prog, cg, eff, chk, A8)
+
     chk.extra['entry_points'] = n_entries
     chk.extra['transaction_scopes'] = len(txn_funcs)
     chk.extra['statement_site_executions_walked'] = an.stats['sites']
@@ -188,6 +198,92 @@ def run(tier='quick'):
         'classes), callees inlined through the resolved call graph with memoisation, branches '
         'forked, loops iterated twice, lambda bodies as loops; %d transaction scopes checked for '
         'commit-on-all-normal-exits and nesting' % (n_entries, len(txn_funcs)))
+
+
+def creation_is_atomic(prog, cg, chk, A7):
+    n = 0
+    for f in prog.functions.values():
+        if f.is_pattern or f.body is None or not prog.in_repo(f.file) or '/schema/' in (f.file or ''):
+            continue
+        if 'temporary' in f.name:
+            continue        # nothing on disk to leave behind
+        parent = {}
+        for x in walk(f.body):
+            for c in children(x):
+                parent[id(c)] = x
+        opens_files = any(e.name and e.name.split('::')[-1] in ('create_legacy_sqlite_database',
+                                                                'create_database2_sqlite_database')
+                          for e in cg.edges(f))
+        if not opens_files:
+            continue
+        for call in walk(f.body):
+            if call.get('kind') != 'CXXMemberCallExpr' or strip(children(call)[0]).get('name') != 'create':
+                continue
+            recv = children(strip(children(call)[0]))
+            if 'schema_creator_validator' not in ((strip(recv[0]).get('type') or '') if recv else ''):
+                continue
+            n += 1
+            chk.analysed(f)
+            short = f.qualname.replace('djinterop::engine::', '')
+            ok = False
+            x = call
+            while id(x) in parent:
+                x = parent[id(x)]
+                if x.get('kind') != 'CXXTryStmt':
+                    continue
+                for h in children(x)[1:]:
+                    if h.get('kind') != 'CXXCatchStmt':
+                        continue
+                    hv = [c for c in children(h) if c.get('kind') == 'VarDecl']
+                    catch_all = not hv or 'std::exception' in (hv[0].get('type') or '')
+                    removes = False
+                    for y in walk(h):
+                        if y.get('kind') in ('CallExpr', 'CXXMemberCallExpr'):
+                            e = cg.edge_for(f, y)
+                            names = [e.name] if e is not None and e.name else []
+                            names += [t.qualname for t in (e.targets if e is not None else ())]
+                            if any(re.search(r'(^|::)(remove|unlink|remove_all|_unlink|DeleteFileA)$', nm or '')
+                                   or 'remove' in (nm or '').split('::')[-1] for nm in names):
+                                removes = True
+                    rethrows = any(y.get('kind') == 'CXXThrowExpr' for y in walk(h))
+                    if catch_all and removes and rethrows:
+                        ok = True
+            if ok:
+                chk.ok(A7, '%s removes what it created when the creator throws' % short, locstr(call))
+            else:
+                chk.violation(A7, '%s|failed creation leaves files' % short, locstr(call),
+                              '%s runs the creator statements (40 - 100 statements in autocommit) with no handler that '
+                              'removes the database files opened just before: when one of them fails, a half-built m.db '
+                              '(and p.db) stays; database_exists then throws instead of answering, load_database throws '
+                              'and create_database refuses because a file exists' % short)
+    if n < 2:
+        raise AnalysisBroken('A7: fewer than two on-disk creation sites found (%d)' % n)
+
+
+def multi_file_commit(prog, cg, eff, chk, A8):
+    from . import c16
+    n = 0
+    for f in prog.functions.values():
+        if f.is_pattern or f.body is None or not prog.in_repo(f.file):
+            continue
+        attaches = [s_ for s_ in eff.sites(f) if s_.stored_in is not None and s_.stored_in.kind == 'attach' and s_.binds]
+        files = [s_ for s_ in attaches if c16._sym_path(prog, f, s_.binds[0]) not in (None, (':memory:',))]
+        if len(files) < 2:
+            continue
+        n += 1
+        chk.analysed(f)
+        short = f.qualname.replace('djinterop::engine::', '')
+        mains = [c16._sym_path(prog, f, arg) for g, node, arg in c16._open_sites(prog, cg, {f.key: (f, None, None)})]
+        if mains and all(m is not None and m != (':memory:',) for m in mains):
+            chk.ok(A8, '%s attaches %d files to a file-backed main database' % (short, len(files)), locstr(f.node))
+        else:
+            chk.violation(A8, '%s|multi-file commit without super-journal' % short, locstr(f.node),
+                          '%s opens an in-memory main database and attaches %d files: a transaction that writes both '
+                          '(create_track, track::update, set_key, set_sample_count, set_sample_rate on 1.x) is committed '
+                          'file by file, so a failure between the two leaves the m.db half committed although the call '
+                          'throws' % (short, len(files)))
+    if n < 2:
+        raise AnalysisBroken('A8: fewer than two functions attaching several files found (%d)' % n)
 
 
 def immediate_statements(prog, eff, chk, A6):
